@@ -297,6 +297,16 @@ SPECS += [
          conds={"isinstance(target, IInput)": "(isInputObj target = true)"}, props=["C19"]),
 ]
 
+# ---- schedule.py : whom the circular-coupling error of the connect phase names (C06 C04) -----------------------------
+SPECS += [
+    dict(lean="connect_stuck", path="schedule.py", qual="Composition._connect_components", group="Stuck",
+         slice={"start": "unconn = [", "end": "unconn = [", "result": ["unconn"]},
+         fields={"_components": "List[Obj]", "status": "Dict[Obj,Int]"}, params={}, ignore_params=["time"], ret="List[Obj]",
+         consts={"m.status": ("((Py.dictGet? self_status m).getD (-1))", "Int"), "ComponentStatus.CONNECTED": ("(0 : Int)", "Int"),
+                 "m.name": ("m", "Obj")},
+         props=["C06", "C04"]),
+]
+
 INTEG_COMMON = dict(
     path="adapters/time_integration.py", group="Integ", ret="Rat",
     calls={"self._unpack": "id", "interpolate": {"lean": "interpolate", "args": [0, 1, 2], "ret": "Rat"}},
